@@ -165,7 +165,7 @@ theorem readPackets_spec (P : Prims) (k : DirKeys) (s : Rx) (buf c : Bytes) :
 /-- **chunked = whole**: feeding any list of segments, running the loop after each, is one run
     to quiescence on the concatenation -/
 theorem feedChunks_whole (P : Prims) (k : DirKeys) : ∀ (cs : List Bytes) (s : Rx) (buf : Bytes),
-    (rxMachine P k).Quiescent s buf →
+    (cs ≠ [] ∨ (rxMachine P k).Quiescent s buf) →
     (rxMachine P k).Runs s (buf ++ cs.flatten) (feedChunks P k s buf cs).2.1 (feedChunks P k s buf cs).1
       (feedChunks P k s buf cs).2.2 ∧
     (rxMachine P k).Quiescent (feedChunks P k s buf cs).1 (feedChunks P k s buf cs).2.2 := by
@@ -174,11 +174,11 @@ theorem feedChunks_whole (P : Prims) (k : DirKeys) : ∀ (cs : List Bytes) (s : 
   | nil =>
     intro s buf hq
     simp only [feedChunks, List.flatten_nil, List.append_nil]
-    exact ⟨Machine.Runs.refl _ _, hq⟩
+    exact ⟨Machine.Runs.refl _ _, hq.resolve_left (fun h => h rfl)⟩
   | cons c cs ih =>
     intro s buf _
     obtain ⟨hr1, hq1⟩ := readPackets_spec P k s buf c
-    obtain ⟨hr2, hq2⟩ := ih _ _ hq1
+    obtain ⟨hr2, hq2⟩ := ih _ _ (Or.inr hq1)
     simp only [feedChunks]
     refine ⟨?_, hq2⟩
     have := Machine.feed_two (rxMachine P k) (rx_prefixStable P k) hr1 hr2
@@ -473,6 +473,96 @@ theorem delivered_honest : ∀ (pkts : List (Nat × Bytes × Nat)), (∀ x ∈ p
           · cases hd
       | ticket x => rw [delivered, ih']; intro _ hc; cases hc
       | seed x => rw [delivered, ih']; intro _ hc; cases hc
+
+/-! ## the slice guards hold in every reachable state; the residue is bounded -/
+
+/-- while a packet body is awaited its announced lengths are within the limits that make
+    `make([]byte, totalLen)` and `data[:payloadLen]` safe -/
+def RxOk (s : Rx) : Prop := s.hdr.isSome → s.payloadLen ≤ s.totalLen ∧ s.totalLen ≤ maxPayloadLength
+
+theorem rxStep_ok (P : Prims) (k : DirKeys) {s : Rx} {b : Bytes} {s' : Rx} {o : List Out} {n : Nat}
+    (hok : RxOk s) (h : rxStep P k s b = some (s', o, n)) : RxOk s' := by
+  unfold rxStep at h
+  by_cases hf : s.failed = true
+  · simp [hf] at h
+  · simp only [hf, Bool.false_eq_true, ↓reduceIte] at h
+    cases hm : s.mac with
+    | none =>
+      simp only [hm] at h
+      by_cases hl : b.length < macLength
+      · simp [hl] at h
+      · simp only [hl, ↓reduceIte, Option.some.injEq, Prod.mk.injEq] at h
+        obtain ⟨rfl, _, _⟩ := h
+        exact hok
+    | some mac =>
+      simp only [hm] at h
+      cases hh : s.hdr with
+      | none =>
+        simp only [hh] at h
+        by_cases hl : b.length < pktHdrLength
+        · simp [hl] at h
+        · simp only [hl, ↓reduceIte] at h
+          split at h
+          · simp only [Option.some.injEq, Prod.mk.injEq] at h
+            obtain ⟨rfl, _, _⟩ := h
+            intro hc; simp [hh] at hc
+          · rename_i hlen
+            simp only [Option.some.injEq, Prod.mk.injEq] at h
+            obtain ⟨rfl, _, _⟩ := h
+            intro _
+            simp only [gt_iff_lt, not_or, Nat.not_lt] at hlen
+            exact hlen
+      | some hdr =>
+        simp only [hh] at h
+        by_cases hl : b.length < s.totalLen
+        · simp [hl] at h
+        · simp only [hl, ↓reduceIte] at h
+          split at h
+          · simp only [Option.some.injEq, Prod.mk.injEq] at h
+            obtain ⟨rfl, _, _⟩ := h
+            exact fun _ => hok (by simp [hh])
+          · split at h <;> simp only [Option.some.injEq, Prod.mk.injEq] at h <;> obtain ⟨rfl, _, _⟩ := h
+            · exact fun _ => hok (by simp [hh])
+            · intro hc; simp at hc
+
+theorem runs_ok (P : Prims) (k : DirKeys) {s : Rx} {b : Bytes} {os : List Out} {s' : Rx} {r : Bytes}
+    (h : (rxMachine P k).Runs s b os s' r) (hok : RxOk s) : RxOk s' := by
+  induction h with
+  | refl => exact hok
+  | step hs _ ih => exact ih (rxStep_ok P k hok hs)
+
+/-- a reader that waits for input (and has not failed) holds less than one maximal packet body -/
+theorem quiescent_residue (P : Prims) (k : DirKeys) {s : Rx} {r : Bytes}
+    (hq : (rxMachine P k).Quiescent s r) (hok : RxOk s) (hf : s.failed = false) :
+    r.length < maxPayloadLength := by
+  have hc := c_mac_pay
+  simp only [Machine.Quiescent, rxMachine] at hq
+  unfold rxStep at hq
+  simp only [hf, Bool.false_eq_true, ↓reduceIte] at hq
+  cases hm : s.mac with
+  | none =>
+    simp only [hm] at hq
+    by_cases hl : r.length < macLength
+    · omega
+    · simp [hl] at hq
+  | some mac =>
+    simp only [hm] at hq
+    cases hh : s.hdr with
+    | none =>
+      simp only [hh] at hq
+      by_cases hl : r.length < pktHdrLength
+      · omega
+      · simp only [hl, ↓reduceIte] at hq
+        split at hq <;> cases hq
+    | some hdr =>
+      simp only [hh] at hq
+      have := hok (by simp [hh])
+      by_cases hl : r.length < s.totalLen
+      · omega
+      · simp only [hl, ↓reduceIte] at hq
+        split at hq
+        · cases hq
+        · split at hq <;> cases hq
 
 end SS
 end O4
